@@ -9,13 +9,16 @@ LEVEL_TEXT = ("TLC explores ListSeq.tla exhaustively in a small scope (all histo
               "indices -7..7, a live copy and an iterator) checking the reference laws; EVERY transition TLC generates is then executed "
               "on each of the three list classes (ASan build of the current tree) with state, return value and link/allocation "
               "invariants compared after every step, plus random walks and TLC trace validation of long recorded histories "
-              "(lists of several hundred elements).")
+              "(lists of several hundred elements).  All of it is repeated with elements and lookup probes of two different comparison-compatible "
+              "classes (url elements / str probes and the reverse); the iterator is also copied (iter_dup) and its position is observed after "
+              "every step by draining a throw-away copy.")
 LEVEL_NOTE = ("Bounded scope for the exhaustive part; beyond it sampled histories only. Trusted: TLC, the harness projection "
-              "(harness/list_replay.c), ASan. Elements are spif_str objects.")
+              "(harness/list_replay.c), ASan. Elements are spif_str or spif_url objects.")
 TECHNIQUE = "TLA+ spec + TLC exhaustive transition cover replayed on the implementation + TLC trace validation"
 DESIGN_REF = "DESIGN.md section 6 C02"
 CLASSES = ["array", "linked_list", "dlinked_list"]
 INIT = {"a": [], "b": {"live": False, "s": []}, "it": -1}
+MIXED = ["url-elems", "url-keys"]
 
 
 def argclass(e):
@@ -77,7 +80,7 @@ def gen_history(rnd, nops, big):
         idxs = [0, 1, -1, n, n - 1, n + 1, -n, -n - 1, -n + 1, n // 2, n // 2 + 1, n // 2 - 1, -(n // 2), rnd.randint(-n - 3, n + 3)]
         i = rnd.choice(idxs)
         if it:
-            c = rnd.choice(["iter_next", "iter_next", "iter_has_next", "iter_del", "get %d" % i, "count", "index %d" % e])
+            c = rnd.choice(["iter_next", "iter_next", "iter_has_next", "iter_del", "iter_dup", "get %d" % i, "count", "index %d" % e])
             if c == "iter_del":
                 it = False
             lines.append(c)
@@ -157,7 +160,8 @@ def trace_validation(ctx, exe):
     nexec = len(hist)
     texts = ["S %d\n%s\nE\n" % (k + 1, "\n".join("%s = ? ?" % c for c in h)) for k, h in enumerate(hist)]
     total = 0
-    for cls in CLASSES:
+    per = {}          # variant -> (events, index)
+    for cls in CLASSES + [c + ":" + m for c in CLASSES for m in MIXED]:
         fails, recs, ns, nt = run_scripts(exe, [cls], texts, ctx.rundir, jobs=4, tag="rec-" + cls)
         bad_sids = set()
         for f in fails:
@@ -178,10 +182,11 @@ def trace_validation(ctx, exe):
                 w = hist[sid - 1][step].split()
                 events.append({"op": w[0], "args": [int(x) for x in w[1:]], "ret": untok(ret), "post": untok(state)})
                 index.append((sid, step))
-        if not events:
-            continue
-        ok, pos, path = trace.validate(ctx, "ListSeqTrace.tla", "ListSeqTrace.cfg", events, tag=cls)
-        total += pos
+        if events:
+            per[cls] = (events, index)
+
+    def judge(cls, events, index):
+        ok, pos, path = trace.validate(ctx, "ListSeqTrace.tla", "ListSeqTrace.cfg", events, tag=re.sub(r"\W", "_", cls))
         if not ok:
             sid, step = index[pos] if pos < len(index) else (None, None)
             evb = events[pos] if pos < len(events) else None
@@ -192,8 +197,22 @@ def trace_validation(ctx, exe):
         else:
             ctx.sample({"variant": cls, "trace_events": len(events), "max_len_seen": max(len(e["post"]["a"]) for e in events),
                         "first_events": [json.dumps(e)[:120] for e in events[1:4]]})
+        return ok, pos
+
+    # one TLC run over the executions of all variants (every execution starts with a reset event); only when that is
+    # rejected each variant is judged on its own, so that a rejection in one does not leave the others unexamined
+    allev = [e for cls in per for e in per[cls][0]]
+    if allev:
+        ok, pos, path = trace.validate(ctx, "ListSeqTrace.tla", "ListSeqTrace.cfg", allev, tag="all")
+        if ok:
+            total = len(allev)
+            for cls in per:
+                ctx.sample({"variant": cls, "trace_events": len(per[cls][0]), "max_len_seen": max(len(e["post"]["a"]) for e in per[cls][0])})
+        else:
+            for cls in per:
+                total += judge(cls, *per[cls])[1]
     ctx.add("trace_events_validated", total)
-    ctx.add("traces_validated_against_impl", nexec * len(CLASSES))
+    ctx.add("traces_validated_against_impl", nexec * len(CLASSES) * (1 + len(MIXED)))
 
 
 def keyfn_free(variant, f):
@@ -209,12 +228,18 @@ def run(ctx):
     for cls in CLASSES:
         objcheck.replay_cover(ctx, g, [tok(INIT)], exe, cls, [cls], keyfn, walks=walks,
                               pairs=(40000 if ctx.tier == "quick" else 600000))
+        # the same transitions with elements and probes of two DIFFERENT comparison-compatible classes (a url is a str and
+        # compares by its text): stored urls looked up with plain strs, and the other way round
+        for mix in MIXED:
+            objcheck.replay_cover(ctx, g, [tok(INIT)], exe, cls + "/" + mix, [cls + ":" + mix], keyfn,
+                                  walks=(walks[0] // 4, walks[1]), pairs=(10000 if ctx.tier == "quick" else 100000))
     trace_validation(ctx, exe)
     ctx.cov["exhaustive"] = True
     ctx.cov["rule"] = ("every transition TLC generates for ListSeq in the bounded scope is executed once per class as the last step of a "
                        "script whose prefix consists of already verified transitions; state, return value and representation "
                        "invariants are compared after every step; plus random walks over verified transitions")
-    ctx.assumptions += ["elements are spif_str objects; equality is spif_str_comp", "ASan build of the current tree (clang -O1)"]
+    ctx.assumptions += ["elements are spif_str objects, or spif_url objects searched with spif_str probes and vice versa; equality is by text",
+                        "ASan build of the current tree (clang -O1)"]
 
 
 def replay(ctx, path):
